@@ -327,7 +327,46 @@ def check_C04(tier, seed):
              "properties; every transition is a session executed by the real interpreter and validated")
 
 
-CHECKS = {"C08": check_C08, "C01": check_C01, "C04": check_C04}
+def check_C06(tier, seed):
+    return mc_sess_check("C06", tier, seed, "MC_C06.tla",
+        rule="TLC explores the state graph of the abstract store (a function from names to values) under a menu of "
+             "direct statements over confusable names (A, A!, A%, A#, A$, AB, A1, FA, A(..), A(..,..), AB(..), A%(..), "
+             "A$(..)): assignments of each value type, boundary subscripts (0, 10, 11, -1, 2.5, wrong arity), DIM / "
+             "ERASE, DEFINT/SNG/DBL/STR, SWAP of same and mixed types, CLEAR; VarsTyped, InBounds, SwapAtomic are "
+             "checked on the specification; every transition is a session after each command of which the whole "
+             "variable store of the interpreter (probe) must equal the specified one")
+
+
+RULES = {
+ "C09": "every program of N lines over the DATA templates (DATA before / between / after the code that reads it, numbers, "
+        "negative numbers, strings; READ of one and several variables incl. a type clash; RESTORE, RESTORE n for a DATA "
+        "line, a non-DATA line and the line after; a loop reading to OUT OF DATA; CLEAR) is run, then READ in direct "
+        "mode, then a DATA line is inserted and the program run again; the data pointer (probe) and every response "
+        "must equal the specified ones",
+ "C10": "every program of N lines over the user-function templates (DEF with 1-2 parameters incl. an Integer "
+        "parameter, a function calling a function to depth 3, redefinition, runaway recursion, calls in PRINT lists, "
+        "FOR bodies, subscripts, IF predicates and a subroutine; wrong arity, undefined function, DEF in direct mode) "
+        "with same-named globals X, Y set before and inspected after",
+ "C11": "every two-line program (line 1: one print item of every kind with each separator; line 2: print lists of 1-2 "
+        "items x separators x trailing separator, an INPUT, a runtime error) followed by a direct PRINT using POS and a "
+        "zone; items: strings of 0/2/14/15 characters, a non-ASCII and a multi-line string, Integers, Singles, Doubles, "
+        "TAB(+/-/0), SPC, POS",
+ "C17": "every INPUT form (no prompt / prompt / leading comma; 1-3 variables of each type; an array element whose "
+        "subscript is an earlier variable of the list), inside a subroutine inside a FOR, x every reply string over "
+        "the reply alphabet up to the bound plus hand-picked replies; rejected replies are followed by a fixed reply",
+}
+
+
+def prog_check(pid):
+    def chk(tier, seed):
+        return mc_sess_check(pid, tier, seed, "MC_Prog.tla", RULES[pid], cfg="MC_Prog_%s_%s.cfg" % (pid, tier),
+                             keep=lambda d: not d.get("oom"))
+    return chk
+
+
+CHECKS = {"C08": check_C08, "C01": check_C01, "C04": check_C04, "C06": check_C06}
+for _p in ("C09", "C10", "C11", "C17"):
+    CHECKS[_p] = prog_check(_p)
 
 
 def check(pid, tier, seed):
